@@ -8,6 +8,7 @@ import (
 	"path/filepath"
 	"strings"
 	"sync"
+	"sync/atomic"
 	"time"
 
 	"github.com/robfig/soy/data"
@@ -21,10 +22,12 @@ import (
 type Real struct {
 	mu    sync.Mutex
 	cache map[string]*core.Compiled
+	cases map[string]*Case
+	G     *Guard // watches the in-process renders (nil: unguarded)
 }
 
 // NewReal returns an empty cache.
-func NewReal() *Real { return &Real{cache: map[string]*core.Compiled{}} }
+func NewReal() *Real { return &Real{cache: map[string]*core.Compiled{}, cases: map[string]*Case{}} }
 
 // Compiled returns the compiled bundle for the given files (cached).
 func (r *Real) Compiled(files []core.File) (*core.Compiled, error) {
@@ -64,7 +67,15 @@ func (r *Real) RenderOff(chainText string, x data.Value) (string, error) {
 	if err != nil {
 		return "", fmt.Errorf("compile: %v", err)
 	}
-	res := c.Render("t.m", data.Map{"x": x}, nil)
+	r.mu.Lock()
+	cs := r.cases[chainText]
+	if cs == nil {
+		cs = &Case{Files: []core.File{{Name: "t.soy", Text: src}}, Render: "t.m", ChainText: chainText}
+		r.cases[chainText] = cs
+	}
+	r.mu.Unlock()
+	var res core.RenderResult
+	r.G.Run(cs, x, func() { res = c.Render("t.m", data.Map{"x": x}, nil) })
 	return res.Out, res.Err
 }
 
@@ -152,6 +163,8 @@ var tlcGate = make(chan struct{}, 4)
 func RunTLC(ctx *core.Ctx, o core.TLCOpts) (*core.TLCResult, error) {
 	tlcGate <- struct{}{}
 	defer func() { <-tlcGate }()
+	atomic.AddInt64(&tlcInFlight, 1)
+	defer atomic.AddInt64(&tlcInFlight, -1)
 	return ctx.RunTLC(o)
 }
 
